@@ -171,6 +171,9 @@ fn account(st: &mut Stats, w: &World, stratum: Stratum, v: &Verdict, info: &RunI
     for k in &info.sem_diag_kinds {
         st.str_insert("semantic_diagnostic_kinds", k);
     }
+    for sig in &info.other_failures {
+        st.inc(&format!("other_property_oracle_failed/{}", sig));
+    }
     if let (Verdict::Skip(_), Some(m)) = (v, &info.panic_msg) {
         st.inc(&format!("skipped_panic_class/{}", oq3sim::oracle::panic_class(m)));
     }
@@ -231,7 +234,7 @@ fn run_batch(
                             };
                             st.inc("runs");
                             for (case, w) in worlds.iter().enumerate() {
-                                let (v, info, run) = oq3sim::check_world(w);
+                                let (v, info, run) = oq3sim::check_world(w, Some(&property));
                                 account(&mut st, w, stratum, &v, &info, &run);
                                 if i < 64 && case == 0 && info.reads >= 1 && samples.len() < 4 {
                                     samples.push((i, case, world_sample(w, i, case, stratum, &verdict_name(&v), &run)));
@@ -415,9 +418,9 @@ fn main() {
                 if !seen.insert(f.violation.signature.clone()) || reported.len() >= 5 {
                     continue;
                 }
-                let min = minimise(&f.world, &f.violation.signature, 300);
+                let min = minimise(&f.world, &f.violation.signature, Some(&property), 300);
                 let (world, minimised) = if min.steps_accepted > 0 { (min.world, true) } else { (f.world.clone(), false) };
-                let (v2, _, run2) = oq3sim::check_world(&world);
+                let (v2, _, run2) = oq3sim::check_world(&world, Some(&property));
                 let detail = match &v2 {
                     Verdict::Violation(v) => v.detail.clone(),
                     _ => f.violation.detail.clone(),
@@ -482,7 +485,7 @@ fn main() {
                 eprintln!("harness error: {}: {}", path, e);
                 std::process::exit(2)
             });
-            let (verdict, _info, run) = oq3sim::check_world(&world);
+            let (verdict, _info, run) = oq3sim::check_world(&world, Some(&property));
             for c in history_json(&run).as_array().unwrap() {
                 println!("  {}", c);
             }
@@ -507,7 +510,7 @@ fn main() {
             let case = args.num("--case").unwrap_or(0) as usize;
             let w = &worlds[case.min(worlds.len() - 1)];
             println!("{}", serde_json::to_string_pretty(&w.to_json()).unwrap());
-            let (v, info, run) = oq3sim::check_world(w);
+            let (v, info, run) = oq3sim::check_world(w, Some(&property));
             for c in history_json(&run).as_array().unwrap() {
                 println!("  {}", c);
             }
@@ -538,7 +541,7 @@ fn main() {
                     let (stratum, worlds) = gen::gen_cases(&mut rng, profile_of(&property), "/w");
                     let mut h: u64 = fnv1a(stratum.name().as_bytes());
                     for w in &worlds {
-                        let (v, _info, run) = oq3sim::check_world(w);
+                        let (v, _info, run) = oq3sim::check_world(w, Some(&property));
                         h = mix(h, fnv1a(serde_json::to_string(&w.to_json()).unwrap().as_bytes()));
                         h = mix(h, fnv1a(history_json(&run).to_string().as_bytes()));
                         h = mix(h, fnv1a(format!("{:?}", v).as_bytes()));
